@@ -14,22 +14,22 @@ REG.bounded_check("C14.union_and_substitution_laws", ["C14"], "C14.bounded",
                   bound="18 values: all pairs (idempotence, Never identity, members, commutativity, operand acceptance, first-occurrence order), triples over 12 (associativity); substitution: identity on 23 closed values x 3 maps, full replacement on 10 open values, commutation with uniting on 36 pairs")
 REG.bounded_check("C17.percent_and_str_format", ["C17"], "C17.bounded",
                   covers=["ConversionSpecifier.from_match / _FORMAT_STRING_REGEX", "PercentFormatString.accept", "format_strings.parse_format_string", "implementation._str_format_impl"],
-                  bound="17 %-conversions x str/bytes x 24 literals; 12 %-templates x tuples of length 0..5; 17 str.format templates x 7 argument lists, compared with the real % operator / str.format through the checker (unused-argument lint territory compared one way only)")
+                  bound="17 %-conversions x str/bytes x 24 literals; 12 %-templates x tuples of length 0..5; 23 str.format templates (field names that look like numbers but are keywords included) x 9 argument lists, compared with the real % operator / str.format through the checker (unused-argument lint territory compared one way only)")
 REG.bounded_check("C13.two_routes", ["C13"], "C13.bounded",
                   covers=["arg_spec.ArgSpecCache.from_signature / _make_sig_parameter", "functions.compute_value_of_function", "annotations.type_from_runtime (simple annotations)"],
-                  bound="def headers: <=2 positional-only x <=2 positional-or-keyword x default suffixes x *args x <=2 keyword-only x **kwargs against inspect.signature; 9 annotated headers x sync/async x 11 call shapes judged through a nested def (def-statement route) and a module-level def (runtime-object route)")
+                  bound="def headers: <=2 positional-only x <=2 positional-or-keyword x default suffixes x *args x <=2 keyword-only x **kwargs against inspect.signature; 9 annotated headers x sync/async x 11 call shapes judged through a nested def (def-statement route) and a module-level def (runtime-object route); quoted annotations naming a module class that shadows a builtin; an async def with a nested sync generator helper")
 REG.bounded_check("C11.reference_projection", ["C11"], "pyanalyze.node_visitor.BaseNodeVisitor.show_error",
                   covers=["BaseNodeVisitor.show_error / has_file_level_ignore / get_unused_ignores (cross-check of the proved kernels)"],
                   bound="files of <= 3 lines over 8 line shapes x line numbers x 3 codes x obey_ignore x settings")
 REG.bounded_check("C16.step_and_autofix", ["C16"], "C16.bounded",
                   covers=["BaseNodeVisitor._apply_changes_to_lines / show_error add_ignores (cross-check)", "replace_node / NodeTransformer / decompile", "fix producers: unused variable removal, use_fstrings"],
-                  bound="files of <= 4 lines, every single-line replacement with 0..2 additions; add-ignores step on files of <= 3 lines over 4 line shapes; 6 programs with fixable diagnostics: fix-apply-recheck to the fixpoint, parse, no new diagnostics, same result of a sample call")
+                  bound="files of <= 4 lines, every single-line replacement with 0..2 additions; add-ignores step on files of <= 3 lines over 4 line shapes; 14 programs with fixable diagnostics (multi-line statements closed by ), ] and } on their own line; %-conversions with width / precision / flags): fix-apply-recheck to the fixpoint, parse, no new diagnostics, same result of a sample call")
 REG.bounded_check("C02.narrowing", ["C02"], "pyanalyze.stacked_scopes.Constraint.apply_to_value",
                   covers=["Constraint.apply_to_value (cross-check)", "Value.is_assignable on literals"],
                   bound="12 objects x 14 values x 11 classes x both polarities (isinstance), 5 singletons (is); known findings D2/D3 skipped")
 REG.bounded_check("C15.solutions", ["C15"], "C15.bounded",
                   covers=["typevar.solve (cross-check)", "TypeVarValue.can_assign / can_be_assigned / get_inherent_bounds", "resolve_bounds_map", "Signature.check_call_with_bound_args (TypeVar part)"],
-                  bound="bound lists of length <= 3 over 6 static values x {lower, upper} + one IsOneOf (known finding D11 skipped); 15 generic calls (bounded / constrained TypeVar in a parameter, only in a callback, in both) through the checker")
+                  bound="bound lists of length <= 3 over 6 static values x {lower, upper} + one IsOneOf (known finding D11 skipped); 24 generic calls (bounded / constrained TypeVar in a parameter, only in a callback, in both; callees whose return type has no type variable; constraints listed wide-first and narrow-first) through the checker")
 REG.bounded_check("C18.layering", ["C18"], "C18.bounded",
                   covers=["Options.from_option_list (sorted by sort_key)", "parse_config_file / extend_config", "Options.for_module / get_value_for", "NameCheckVisitor.prepare_constructor_kwargs"],
                   bound="two chained config files x every subset of <= 3 of {command line, main a.b / a / top-level, base a.b / a / top-level} x extend_config first/last x 5 module paths, integer and list option; falsy and truthy command-line values over a config file")
@@ -38,7 +38,7 @@ REG.bounded_check("C08.reference_resolver", ["C08"], "C08.bounded",
                   bound="7 overload sets (3 signatures, arity 1-2, overlapping and shadowed) x all literal argument tuples of length <= 2 over 5 literals; union arguments passed positionally and by keyword, a two-argument set where an earlier overload takes part of the union but rejects the other argument, unions with an Any member, one Any-argument case")
 REG.bounded_check("C20.reference_denotation", ["C20"], "C20.bounded",
                   covers=["ConditionEvaluator.visit_is_of_type / visit_BoolOp / visit_Compare", "EvaluateVisitor.visit_show_error / _evaluate_ret", "arg_spec._maybe_make_evaluator_sig", "signature argument positions"],
-                  bound="8 evaluator bodies (if / nested if / not / and / or over is_of_type and is_provided, return, show_error) x {literal int, literal str, Union[int, str]} x {y omitted, positional, keyword}; 4 bodies over two union parameters (and / or / not with a nested condition) x 9 argument pairs; 8 calls on the UNKNOWN / KEYWORD / POSITIONAL / DEFAULT kinds of keyword-only and positional-only parameters with defaults")
+                  bound="8 evaluator bodies (if / nested if / not / and / or over is_of_type and is_provided, return, show_error) x {literal int, literal str, Union[int, str]} x {y omitted, positional, keyword}; 4 bodies over two union parameters (and / or / not with a nested condition) x 9 argument pairs; 2 bodies of several ifs in sequence x 9 argument pairs (known finding D51 kept apart); unions with an Any member under exclude_any; 8 calls on the UNKNOWN / KEYWORD / POSITIONAL / DEFAULT kinds of keyword-only and positional-only parameters with defaults")
 REG.bounded_check("C01.instrumented_execution", ["C01"], "C01.bounded",
                   covers=["NameCheckVisitor (assignment, branching, loops, try/except, narrowing, unpacking, indexing, calls to annotated and generic functions, match)",
                           "stacked_scopes lookups", "implementation impl functions", "patma"],
@@ -64,7 +64,7 @@ REG.bounded_check("C02.conditions", ["C02"], "C02.conditions",
                   covers=["NameCheckVisitor.visit_BoolOp / visit_UnaryOp (not) / constraint_from_condition", "stacked_scopes.extract_constraints / AndConstraint.make / OrConstraint.make / OrConstraint.apply / invert",
                           "the isinstance / is / truthiness / == condition-to-constraint translation"],
                   bound="10 atomic conditions on x: Union[int, str, None] (isinstance, is None, truthiness, ==, an opaque call), all ordered pairs under and / or, 80 three-operand shapes with not / nesting, "
-                        "x in {1, 0, 's', '', None} x both results of the opaque call: the value that takes a branch at run time belongs to the type x is narrowed to there; 52 comparisons of len(y) with a constant on either side on tuples of length 0-4")
+                        "x in {1, 0, 's', '', None} x both results of the opaque call: the value that takes a branch at run time belongs to the type x is narrowed to there; 52 comparisons of len(y) with a constant on either side on tuples of length 0-4; 60 match statements with an opaque guard on the first case x subject values x both guard results")
 REG.bounded_check("C05.binding", ["C05"], "C05.bounded",
                   covers=["Signature.bind_arguments", "signature.preprocess_args (literal * / ** arguments, merging)", "arg_spec.ArgSpecCache.from_signature (def statements)", "the visitor's call-site argument collection"],
                   bound="180 def signatures (<= 4 parameters: positional-only, positional-or-keyword, *args, keyword-only, **kwargs, every default pattern) x 140 sampled (quick) / all 512 (thorough) call shapes "
